@@ -1,9 +1,21 @@
 package main
 
-// Channels, maps, select, go statements and sync primitives.
+// Channels, select, go statements, sync/atomic and sync.Mutex as *atomic points*
+// (DESIGN.md 2.3): every operation on shared state appends a named event to the ghost
+// trace, its result is nondeterministic (other goroutines interfere), constrained only
+// by what is stable (monotone flags, closed Done channels). Per-function contracts speak
+// about the sequence of atomic points on each path.
+//
+// Event names are source-like descriptions of the operand:
+//   "send c.writeQueue", "recv c.writeQueue", "select send c.writeQueue",
+//   "select recv ctx.Done()", "select recv c.ctx.Done()", "select default",
+//   "len c.writeQueue", "cas c.running", "load c.closed", "store c.running",
+//   "lock c.writeLock", "unlock c.writeLock", "go <fn>", "close signal"
 
 import (
+	"fmt"
 	"go/types"
+	"strings"
 
 	"golang.org/x/tools/go/ssa"
 )
@@ -13,78 +25,442 @@ type builtinModel func(x *Exec, st *State, fr *Frame, site ssa.Instruction, fn *
 var builtinModels = map[string]builtinModel{}
 var builtinWrites = map[string]func(x *Exec, st *State) []heapKey{}
 
+func init() {
+	builtinModels["sync/atomic.CompareAndSwapInt32"] = atomicCAS
+	builtinModels["sync/atomic.LoadInt32"] = atomicLoad
+	builtinModels["sync/atomic.StoreInt32"] = atomicStore
+	builtinModels["sync/atomic.AddInt64"] = atomicAdd
+	builtinModels["(*sync.Mutex).Lock"] = mutexOp("lock", true)
+	builtinModels["(*sync.Mutex).Unlock"] = mutexOp("unlock", false)
+	builtinModels["(*sync.RWMutex).Lock"] = mutexOp("lock", true)
+	builtinModels["(*sync.RWMutex).Unlock"] = mutexOp("unlock", false)
+	builtinModels["(*sync.RWMutex).RLock"] = mutexOp("rlock", true)
+	builtinModels["(*sync.RWMutex).RUnlock"] = mutexOp("runlock", false)
+	for k := range builtinModels {
+		builtinWrites[k] = func(x *Exec, st *State) []heapKey { return nil }
+	}
+}
+
+// describe reconstructs a source-like name for an SSA value (parameters, field
+// selections, method calls on those).
+func describe(v ssa.Value) string {
+	switch v := v.(type) {
+	case *ssa.Parameter:
+		return v.Name()
+	case *ssa.FreeVar:
+		return v.Name()
+	case *ssa.Global:
+		return v.Name()
+	case *ssa.FieldAddr:
+		st := deref(v.X.Type()).Underlying().(*types.Struct)
+		return describe(v.X) + "." + st.Field(v.Field).Name()
+	case *ssa.Field:
+		st := v.X.Type().Underlying().(*types.Struct)
+		return describe(v.X) + "." + st.Field(v.Field).Name()
+	case *ssa.UnOp:
+		return describe(v.X) // load
+	case *ssa.Alloc:
+		if v.Comment != "" {
+			return v.Comment
+		}
+	case *ssa.Call:
+		if v.Call.IsInvoke() {
+			return describe(v.Call.Value) + "." + v.Call.Method.Name() + "()"
+		}
+		if sc := v.Call.StaticCallee(); sc != nil {
+			return sc.Name() + "()"
+		}
+	case *ssa.ChangeInterface:
+		return describe(v.X)
+	case *ssa.ChangeType:
+		return describe(v.X)
+	case *ssa.MakeInterface:
+		return describe(v.X)
+	case *ssa.MakeChan:
+		// named by the variable it is assigned to, if the debug info says so
+		if refs := v.Referrers(); refs != nil {
+			for _, r := range *refs {
+				if d, ok := r.(*ssa.DebugRef); ok {
+					if o := d.Object(); o != nil {
+						return o.Name()
+					}
+				}
+			}
+		}
+	case *ssa.Phi:
+		if v.Comment != "" {
+			return v.Comment
+		}
+	case *ssa.Extract:
+		return describe(v.Tuple)
+	}
+	return v.Name()
+}
+
+func (x *Exec) atomicEvent(st *State, name string, args []*Val, res []*Val) {
+	st.trace = append(st.trace, Event{Callee: name, Short: name, Args: args, Res: res, Heap: st.heapCopy()})
+}
+
+// fieldOfAddr: the declared protection clause of the field an address points to.
+func (x *Exec) atomicDecl(p *Ptr) *FieldDecl {
+	if p == nil || p.Kind != PObj || len(p.Path) != 1 {
+		return nil
+	}
+	stt, ok := p.Root.Underlying().(*types.Struct)
+	if !ok {
+		return nil
+	}
+	name := namedStructKey(p.Root)
+	for _, fd := range x.cs.Fields {
+		if fd.Kind == "atomic" && fd.Pkg+"."+fd.Type == name && fd.Field == stt.Field(p.Path[0]).Name() {
+			return fd
+		}
+	}
+	return nil
+}
+
+func callArgDesc(site ssa.Instruction, i int) string {
+	if c, ok := site.(ssa.CallInstruction); ok {
+		if i < len(c.Common().Args) {
+			return describe(c.Common().Args[i])
+		}
+	}
+	return "?"
+}
+
+// atomic loads return an arbitrary value (other goroutines), except that a field
+// declared "atomic monotone" never goes below the value this path last knew.
+func atomicLoad(x *Exec, st *State, fr *Frame, site ssa.Instruction, fn *ssa.Function, args []*Val, kn func(*State, []*Val), kp func(*State, *Val)) {
+	m := st.m
+	t := fn.Signature.Results().At(0).Type()
+	v := st.freshVal("atomic.load", t)
+	p := ptrOf(args[0])
+	if fd := x.atomicDecl(p); fd != nil && strings.Contains(fd.Arg, "monotone") {
+		ii, _ := basicIntInfo(t)
+		cur := st.loadFrom(st.heap, p)
+		st.assume(and(m.cmp(tokenLE, cur.S, v.S, ii), m.cmp(tokenLE, v.S, m.lit(pow2(0), ii), ii)))
+		st.storeTo(p, v) // what we now know
+	}
+	x.atomicEvent(st, "load "+callArgDesc(site, 0), nil, []*Val{v})
+	kn(st, []*Val{v})
+}
+
+func atomicStore(x *Exec, st *State, fr *Frame, site ssa.Instruction, fn *ssa.Function, args []*Val, kn func(*State, []*Val), kp func(*State, *Val)) {
+	x.atomicEvent(st, "store "+callArgDesc(site, 0), []*Val{args[1]}, nil)
+	st.storeTo(ptrOf(args[0]), args[1])
+	kn(st, nil)
+}
+
+func atomicCAS(x *Exec, st *State, fr *Frame, site ssa.Instruction, fn *ssa.Function, args []*Val, kn func(*State, []*Val), kp func(*State, *Val)) {
+	m := st.m
+	ok := st.freshVal("cas.ok", types.Typ[types.Bool])
+	p := ptrOf(args[0])
+	if fd := x.atomicDecl(p); fd != nil && strings.Contains(fd.Arg, "monotone") {
+		// the flag never decreases: a CAS from a value below what we know cannot succeed
+		ii, _ := basicIntInfo(args[1].T)
+		cur := st.loadFrom(st.heap, p)
+		st.assume(implies(ok.S, m.cmp(tokenLE, cur.S, args[1].S, ii)))
+	}
+	x.atomicEvent(st, "cas "+callArgDesc(site, 0), []*Val{args[1], args[2]}, []*Val{ok})
+	// on success the field holds the new value (as far as this path knows)
+	x.branch(st, ok.S,
+		func(s *State) { s.storeTo(p, args[2]); kn(s, []*Val{ok}) },
+		func(s *State) { kn(s, []*Val{ok}) })
+}
+
+func atomicAdd(x *Exec, st *State, fr *Frame, site ssa.Instruction, fn *ssa.Function, args []*Val, kn func(*State, []*Val), kp func(*State, *Val)) {
+	v := st.freshVal("atomic.add", fn.Signature.Results().At(0).Type())
+	x.atomicEvent(st, "add "+callArgDesc(site, 0), []*Val{args[1]}, []*Val{v})
+	kn(st, []*Val{v})
+}
+
+func mutexOp(kind string, acquire bool) builtinModel {
+	return func(x *Exec, st *State, fr *Frame, site ssa.Instruction, fn *ssa.Function, args []*Val, kn func(*State, []*Val), kp func(*State, *Val)) {
+		name := callArgDesc(site, 0)
+		x.atomicEvent(st, kind+" "+name, nil, nil)
+		if acquire {
+			st.locks = append(st.locks, kind+" "+name)
+		} else {
+			want := strings.TrimPrefix(kind, "un")
+			if kind == "runlock" {
+				want = "rlock"
+			}
+			for i := len(st.locks) - 1; i >= 0; i-- {
+				if st.locks[i] == want+" "+name {
+					st.locks = append(append([]string{}, st.locks[:i]...), st.locks[i+1:]...)
+					break
+				}
+			}
+		}
+		kn(st, nil)
+	}
+}
+
 func (x *Exec) noteAccess(st *State, fr *Frame, in ssa.Instruction, pv *Val, write bool) {}
 
 func (x *Exec) lockHeld(st *State, name string) bool {
 	for _, l := range st.locks {
-		if l == name {
+		if strings.HasSuffix(l, " "+name) {
 			return true
 		}
 	}
 	return false
 }
 
-func (x *Exec) chanKeys(st *State) []heapKey { return nil }
+// ---------------------------------------------------------------------------
+// channels: ghost qcap(ch) (capacity, fixed), chclosed(ch) (closed; monotone)
+
+func (x *Exec) chanGhost(st *State, name string, keys []string, res string) *GhostDecl {
+	gd := x.cs.Ghosts[name]
+	if gd == nil {
+		gd = &GhostDecl{Name: name, Keys: keys, Result: res}
+		x.cs.Ghosts[name] = gd
+	}
+	return gd
+}
+
+func (x *Exec) qcapTerm(st *State, ch *Val) Tm {
+	gd := x.chanGhost(st, "qcap", []string{"ref"}, "int const")
+	s := x.ghostSort(st.m, gd)
+	key := "ghost|qcap"
+	if _, ok := st.sorts[key]; !ok {
+		st.sorts[key] = s
+	}
+	return sel(Tm{"H0!" + sanitize(key), s}, ch.S, st.m.idx())
+}
+
+func (x *Exec) chclosedTerm(st *State, view map[string]Tm, ch Tm) Tm {
+	gd := x.chanGhost(st, "chclosed", []string{"ref"}, "bool")
+	return sel(st.viewGet(view, "ghost|chclosed", x.ghostSort(st.m, gd)), ch, SBool)
+}
+
+func (x *Exec) chanKeys(st *State) []heapKey {
+	gd := x.chanGhost(st, "chclosed", []string{"ref"}, "bool")
+	return []heapKey{{"ghost|chclosed", x.ghostSort(st.m, gd)}}
+}
 
 func (x *Exec) mapKeys(st *State, t types.Type) []heapKey { return nil }
 
-func (x *Exec) chanInit(st *State, ref Tm, sz Tm) { engineErr("channels not supported yet") }
+func (x *Exec) chanInit(st *State, ref Tm, sz Tm) {
+	st.assume(eq(x.qcapTerm(st, scalar(nil, KChan, ref)), sz))
+	// a new channel is open
+	gd := x.chanGhost(st, "chclosed", []string{"ref"}, "bool")
+	key := "ghost|chclosed"
+	cur := st.heapGet(key, x.ghostSort(st.m, gd))
+	st.heapSet(key, store(cur, ref, tFalse))
+}
 
 func (x *Exec) chanLen(st *State, fr *Frame, site ssa.Instruction, ch *Val) *Val {
-	engineErr("channels not supported yet")
-	return nil
+	m := st.m
+	v := st.freshVal("chan.len", types.Typ[types.Int])
+	st.assume(and(m.le(m.idxLit(0), v.S), m.le(v.S, x.qcapTerm(st, ch))))
+	x.atomicEvent(st, "len "+callArgDesc(site, 0), []*Val{ch}, []*Val{v})
+	return v
 }
 
 func (x *Exec) chanLenIn(st *State, view map[string]Tm, ch *Val) *Val {
-	engineErr("channels not supported yet")
+	engineErr("len of a channel in a contract expression: use the 'len <chan>' event")
 	return nil
 }
 
 func (x *Exec) chanCap(st *State, ch *Val) *Val {
-	engineErr("channels not supported yet")
-	return nil
+	return scalar(types.Typ[types.Int], KInt, x.qcapTerm(st, ch))
 }
 
 func (x *Exec) chanClose(st *State, fr *Frame, site ssa.Instruction, ch *Val, kn func(*State, []*Val), kp func(*State, *Val)) {
-	engineErr("channels not supported yet")
+	x.fault(st, fr, site, "nil", not(isNilTm(ch)))
+	// closing a closed channel panics
+	closed := x.chclosedTerm(st, st.heap, ch.S)
+	x.fault(st, fr, site, "closeclosed", not(closed))
+	x.atomicEvent(st, "close "+callArgDesc(site, 0), []*Val{ch}, nil)
+	gd := x.chanGhost(st, "chclosed", []string{"ref"}, "bool")
+	key := "ghost|chclosed"
+	cur := st.heapGet(key, x.ghostSort(st.m, gd))
+	st.heapSet(key, store(cur, ch.S, tTrue))
+	kn(st, nil)
 }
 
 func (x *Exec) mapInit(st *State, t types.Type, ref Tm) {}
 
 func (x *Exec) lookup(st *State, fr *Frame, in *ssa.Lookup) bool {
-	engineErr("map lookup not supported yet")
+	// map lookup: the result is unconstrained (the map content is not modelled), recorded as an event
+	if _, isMap := in.X.Type().Underlying().(*types.Map); !isMap {
+		engineErr("string index lookup not supported")
+	}
+	mv := x.operand(st, fr, in.X)
+	kv := x.operand(st, fr, in.Index)
+	var res *Val
+	if in.CommaOk {
+		v := st.freshVal("map.val", in.Type().(*types.Tuple).At(0).Type())
+		ok := st.freshVal("map.ok", types.Typ[types.Bool])
+		res = &Val{T: in.Type(), K: KTuple, Fs: []*Val{v, ok}}
+		x.atomicEvent(st, "maplookup "+describe(in.X), []*Val{mv, kv}, []*Val{v, ok})
+	} else {
+		res = st.freshVal("map.val", in.Type())
+		x.atomicEvent(st, "maplookup "+describe(in.X), []*Val{mv, kv}, []*Val{res})
+	}
+	x.setVal(st, fr, in, res)
 	return true
 }
 
 func (x *Exec) mapUpdate(st *State, fr *Frame, in *ssa.MapUpdate) bool {
-	engineErr("map update not supported yet")
+	mv := x.operand(st, fr, in.Map)
+	x.fault(st, fr, in, "nil", not(isNilTm(mv)))
+	x.atomicEvent(st, "mapupdate "+describe(in.Map), []*Val{mv, x.operand(st, fr, in.Key), x.operand(st, fr, in.Value)}, nil)
 	return true
 }
 
 func (x *Exec) mapDelete(st *State, fr *Frame, cc *ssa.CallCommon, args []*Val) {
-	engineErr("map delete not supported yet")
+	x.atomicEvent(st, "mapdelete "+describe(cc.Args[0]), args, nil)
 }
 
 func (x *Exec) goStmt(st *State, fr *Frame, in *ssa.Go, next func(*State)) {
-	engineErr("go statement not supported yet")
+	var args []*Val
+	for _, a := range in.Call.Args {
+		args = append(args, x.operand(st, fr, a))
+	}
+	name := describe(in.Call.Value)
+	if sc := in.Call.StaticCallee(); sc != nil {
+		name = sc.Name()
+	}
+	if _, isB := in.Call.Value.(*ssa.Builtin); !isB {
+		args = append([]*Val{x.operand(st, fr, in.Call.Value)}, args...)
+	}
+	x.atomicEvent(st, "go "+name, args, nil)
+	next(st)
 }
 
+// selectStmt: nondeterministic choice among the cases (Go's semantics); receiving from a
+// Done channel is possible only if it is closed; default only if no Done channel is closed
+// (whether a send or a data receive is possible depends on other goroutines).
 func (x *Exec) selectStmt(st *State, fr *Frame, in *ssa.Select, next func(*State)) {
-	engineErr("select not supported yet")
+	m := st.m
+	type caseInfo struct {
+		ch   *Val
+		send *Val
+		name string
+	}
+	var cases []caseInfo
+	for _, s := range in.States {
+		ci := caseInfo{ch: x.operand(st, fr, s.Chan), name: describe(s.Chan)}
+		if s.Send != nil {
+			ci.send = x.operand(st, fr, s.Send)
+		}
+		cases = append(cases, ci)
+	}
+	tt := in.Type().(*types.Tuple)
+	mk := func(s *State, idx int, recvVals map[int]*Val, okv Tm) {
+		fs := []*Val{scalar(types.Typ[types.Int], KInt, m.idxLit(int64(idx))), scalar(types.Typ[types.Bool], KBool, okv)}
+		ri := 0
+		for i, sst := range in.States {
+			if sst.Dir == types.RecvOnly {
+				if v, ok := recvVals[i]; ok {
+					fs = append(fs, v)
+				} else {
+					fs = append(fs, m.zero(tt.At(2+ri).Type()))
+				}
+				ri++
+			}
+		}
+		x.setVal(s, fr, in, &Val{T: in.Type(), K: KTuple, Fs: fs})
+		next(s)
+	}
+	if in.Blocking {
+		x.atomicEvent(st, "select blocking", nil, nil)
+	} else {
+		x.atomicEvent(st, "select nonblocking", nil, nil)
+	}
+	n := len(cases)
+	if !in.Blocking {
+		n++
+	}
+	for i := 0; i < n; i++ {
+		s := st
+		if i < n-1 {
+			x.pathLimit()
+			s = st.clone()
+		}
+		if i == len(cases) { // default
+			for j, c := range cases {
+				if in.States[j].Dir == types.RecvOnly && x.isDoneChan(in.States[j].Chan) {
+					s.assume(not(x.chclosedTerm(s, s.heap, c.ch.S)))
+				}
+			}
+			x.atomicEvent(s, "select default", nil, nil)
+			mk(s, -1, nil, tFalse)
+			continue
+		}
+		c := cases[i]
+		x.fault(s, fr, in, "nil", tTrue)
+		if in.States[i].Dir == types.SendOnly {
+			x.atomicEvent(s, "select send "+c.name, []*Val{c.send, c.ch}, nil)
+			mk(s, i, nil, tFalse)
+			continue
+		}
+		elem := in.States[i].Chan.Type().Underlying().(*types.Chan).Elem()
+		rv := s.freshVal("recv", elem)
+		okv := s.declare("recv.ok", SBool)
+		if x.isDoneChan(in.States[i].Chan) {
+			s.assume(x.chclosedTerm(s, s.heap, c.ch.S))
+			s.assume(not(okv))
+		}
+		x.atomicEvent(s, "select recv "+c.name, []*Val{c.ch}, []*Val{rv})
+		mk(s, i, map[int]*Val{i: rv}, okv)
+	}
+}
+
+// isDoneChan: the channel comes from a Done() method (context): it is only ever closed.
+func (x *Exec) isDoneChan(v ssa.Value) bool {
+	if c, ok := v.(*ssa.Call); ok && c.Call.IsInvoke() && c.Call.Method.Name() == "Done" {
+		return true
+	}
+	return false
 }
 
 func (x *Exec) sendStmt(st *State, fr *Frame, in *ssa.Send, next func(*State)) {
-	engineErr("send not supported yet")
+	ch := x.operand(st, fr, in.Chan)
+	v := x.operand(st, fr, in.X)
+	x.fault(st, fr, in, "nil", not(isNilTm(ch)))
+	x.atomicEvent(st, "send "+describe(in.Chan), []*Val{v, ch}, nil)
+	next(st)
 }
 
 func (x *Exec) recvStmt(st *State, fr *Frame, in *ssa.UnOp, next func(*State)) {
-	engineErr("receive not supported yet")
+	ch := x.operand(st, fr, in.X)
+	elem := in.X.Type().Underlying().(*types.Chan).Elem()
+	rv := st.freshVal("recv", elem)
+	x.atomicEvent(st, "recv "+describe(in.X), []*Val{ch}, []*Val{rv})
+	if in.CommaOk {
+		ok := st.freshVal("recv.ok", types.Typ[types.Bool])
+		x.setVal(st, fr, in, &Val{T: in.Type(), K: KTuple, Fs: []*Val{rv, ok}})
+	} else {
+		x.setVal(st, fr, in, rv)
+	}
+	next(st)
 }
 
+// range over a map: each present key is visited once in unspecified order. The loop body
+// is verified for an arbitrary element (loop invariant machinery applies at the header).
 func (x *Exec) rangeStmt(st *State, fr *Frame, in *ssa.Range, next func(*State)) {
-	engineErr("range over map/string not supported yet")
+	mv := x.operand(st, fr, in.X)
+	if _, ok := in.X.Type().Underlying().(*types.Map); !ok {
+		engineErr("range over %s not supported", in.X.Type())
+	}
+	x.setVal(st, fr, in, &Val{T: in.Type(), K: KMap, S: mv.S})
+	next(st)
 }
 
 func (x *Exec) nextStmt(st *State, fr *Frame, in *ssa.Next, next func(*State)) {
-	engineErr("range over map/string not supported yet")
+	if in.IsString {
+		engineErr("range over string not supported")
+	}
+	tt := in.Type().(*types.Tuple)
+	ok := st.freshVal("next.ok", types.Typ[types.Bool])
+	k := st.freshVal("next.key", tt.At(1).Type())
+	v := st.freshVal("next.val", tt.At(2).Type())
+	it := x.operand(st, fr, in.Iter)
+	x.atomicEvent(st, "mapnext", []*Val{it}, []*Val{ok, k, v})
+	x.setVal(st, fr, in, &Val{T: in.Type(), K: KTuple, Fs: []*Val{ok, k, v}})
+	next(st)
+	_ = fmt.Sprint
 }
